@@ -64,7 +64,69 @@ pub mod runtime {
             self
         }
         pub fn build(&mut self) -> std::io::Result<Runtime> {
-            self.inner.build()
+            Ok(Runtime { inner: self.inner.build()? })
+        }
+    }
+
+    /// The runtime `#[tokio::main]` runs on. When the main future ends, the multi-threaded runtime of the shipped binary
+    /// shuts down while its workers are still running: tasks are dropped one after the other, in no particular order,
+    /// and a task woken by the disappearance of another (a channel whose last sender went away) can still be polled.
+    /// `block_on` reproduces that as a seeded shutdown: the tasks are cancelled in a seeded order, with scheduler turns
+    /// in between.
+    pub struct Runtime {
+        inner: real_tokio::runtime::Runtime,
+    }
+
+    impl Runtime {
+        pub fn block_on<F: std::future::Future>(&self, future: F) -> F::Output {
+            self.inner.block_on(async move {
+                let out = future.await;
+                crate::seeded_shutdown().await;
+                out
+            })
+        }
+        pub fn handle(&self) -> &real_tokio::runtime::Handle {
+            self.inner.handle()
+        }
+        pub fn enter(&self) -> real_tokio::runtime::EnterGuard<'_> {
+            self.inner.enter()
+        }
+    }
+}
+
+static TASKS: std::sync::Mutex<Vec<real_tokio::task::AbortHandle>> = std::sync::Mutex::new(Vec::new());
+
+fn remember(h: real_tokio::task::AbortHandle) {
+    let mut t = TASKS.lock().unwrap();
+    if t.len() >= 4096 {
+        t.retain(|h| !h.is_finished());
+    }
+    t.push(h);
+}
+
+static SHUTTING_DOWN: std::sync::atomic::AtomicBool = std::sync::atomic::AtomicBool::new(false);
+
+pub fn shutting_down() -> bool {
+    SHUTTING_DOWN.load(std::sync::atomic::Ordering::Relaxed)
+}
+
+async fn seeded_shutdown() {
+    if !sim::is_started() {
+        return;
+    }
+    SHUTTING_DOWN.store(true, std::sync::atomic::Ordering::Relaxed);
+    let mut tasks: Vec<_> = std::mem::take(&mut *TASKS.lock().unwrap()).into_iter().filter(|h| !h.is_finished()).collect();
+    sim::with(|w| {
+        for i in (1..tasks.len()).rev() {
+            let j = w.sched_rng.below(i as u64 + 1) as usize;
+            tasks.swap(i, j);
+        }
+        w.count("shutdown_tasks_cancelled");
+    });
+    for h in tasks {
+        h.abort();
+        for _ in 0..3 {
+            real_tokio::task::yield_now().await;
         }
     }
 }
@@ -91,7 +153,7 @@ where
     } else {
         0
     };
-    if k == 0 {
+    let h = if k == 0 {
         real_tokio::spawn(future)
     } else {
         real_tokio::spawn(async move {
@@ -100,7 +162,9 @@ where
             }
             future.await
         })
-    }
+    };
+    remember(h.abort_handle());
+    h
 }
 
 pub mod task {
